@@ -28,6 +28,7 @@ type CaseOpts struct {
 	DB         string
 	Coll       string
 	NoNsStages bool
+	Cmd        *Node // if set, used as the command document instead of a generated one
 }
 
 func (g *Gen) lsid() *Node {
@@ -211,7 +212,10 @@ func (g *Gen) Case(o CaseOpts) *Case {
 	if wstyle {
 		cs.Carrier = "command"
 	}
-	cmd := g.Command(cs.Verb, cs.DB, cs.Coll)
+	cmd := o.Cmd
+	if cmd == nil {
+		cmd = g.Command(cs.Verb, cs.DB, cs.Coll)
+	}
 	g.serial++
 	cs.ID = g.serial
 
